@@ -637,6 +637,10 @@ func TestVerifC02(t *testing.T) {
 	// ---- an abandoned GET followed by a PUT that reuses its pooled buffer;
 	// short-bodied PUT after the same block went through the buffer
 	vkSharedBuffers(t, run, hs, newDir, &judgeMu, "C02")
+
+	// ---- a PUT over an old copy interleaved step by step with a request that
+	// trashes that copy (c02trash_test.go)
+	c02TrashRace(t, run, hs, newDir, &judgeMu)
 }
 
 func c02Overlap(t *testing.T, run *verifkit.Run, hs *vkHTTP, newDir func() string, judgeMu *sync.Mutex, prop string) {
